@@ -15,34 +15,17 @@ EXACT = {'RunoffCoefficient'}
 CORPUS = os.path.join(VERIF, 'corpus', 'C10')
 
 
-def finding_key(cs, bad, ri):
-    """Key under which a failure may be listed in known_findings.txt.  For Sacramento the trigger
-    predicate of the two recorded defects is evaluated EXACTLY: the SACTRACE command re-runs a copy
-    of the current sacramento() (regenerated from /repo on every run, arithmetic unchanged) that
-    records the first time step at which (a) ratio < -1 or adimc > uztwm+lztwm, (b) fracp > 1 --
-    the situations that the guards of the original Fortran code exclude.  The events count only if
-    the copy's outputs are bit-identical to sim.Catalog's on this case and the event does not come
-    after the failure.  Everything else gets a key that matches no finding."""
-    model, klass, msg = cs['model'], bad[0], bad[1]
-    if model == 'Sacramento' and ri is not None and ri[0] == 'OK':
-        tr = sactrace(cs['ps'], cs['st0'], cs['rain'], cs['pet'])
-        if tr is not None and kresults_agree(ri, tr[1]) is None:
-            ev = tr[0]
-            m = re.search(r't=(\d+)', msg)
-            tfail = int(m.group(1)) if m else len(cs['rain'])
-            adimc_ev = [t for t in (ev['ratioNeg'], ev['adimcOver']) if t >= 0]
-            if adimc_ev and min(adimc_ev) <= tfail:
-                return 'sacramento-adimc-unguarded'
-            if 0 <= ev['fracpOver'] <= tfail:
-                return 'sacramento-fracp-unguarded'
-    return '%s-%s' % (model.lower(), klass)
+def finding_key(cs, bad):
+    """Key under which a failure could be listed in known_findings.txt.  No C10 finding is open
+    (the three Sacramento defects were fixed in /repo 593a60d and d1b98da), so these keys match
+    nothing and every oracle failure is a VIOLATION."""
+    return '%s-%s' % (cs['model'].lower(), bad[0])
 
 
 def main():
     c = Check('C10')
     c.prove()
     build_driver(['rr'])          # private driver with the rr fragment only (Extract/lists/rr.list, registry.d/rr.*)
-    gen_sactrace()
     build_harness(['owrun'])
     rng = c.rng
     quick = c.tier == 'quick'
@@ -121,7 +104,7 @@ def main():
                     'rainfall': cs['rain'], 'pet': cs['pet'], 'case_line': lines[i]}
             if ri[0] != 'OK':
                 desc.update({'failure': 'crash-on-valid-input', 'impl': li[:300]})
-                c.violation('oracle_%s_%s_%d.json' % (tag, m, i), desc, key=finding_key(cs, ('crash', ''), None))
+                c.violation('oracle_%s_%s_%d.json' % (tag, m, i), desc, key=finding_key(cs, ('crash', '')))
                 finals.append(None)
                 continue
             bad = ORACLES[m](cs['ps'], cs['st0'], cs['rain'], cs['pet'], ri[1], ri[2])
@@ -129,7 +112,7 @@ def main():
             finals.append(None if bad else ri[2])
             if bad:
                 desc.update({'failure': bad[0], 'message': bad[1], 'runoff_head': ri[1][0][:12], 'final_states': ri[2]})
-                key = finding_key(cs, bad, ri)
+                key = finding_key(cs, bad)
                 if not c.violation('oracle_%s_%s_%d.json' % (tag, m, i), desc, key=key):
                     nknown[key] = nknown.get(key, 0) + 1
             if i % 211 == 0:
@@ -153,28 +136,17 @@ def main():
                                       'conditioned': d2, 'line': lines[i][:4000]})
             else:
                 illcond[0] += 1
-        # Sacramento: how many of these runs satisfy the hypotheses of the guarded theorems
-        # (C10_sacramento_guarded / _budget_guarded): static guards + pre_guard at every step
-        sidx = [i for i, cs in enumerate(cases) if cs['model'] == 'Sacramento' and len(cs['rain']) > 0]
-        sres = run_impl([sactrace_line(cases[i]['ps'], cases[i]['st0'], cases[i]['rain'], cases[i]['pet']) for i in sidx]) if sidx else []
-        for i, l in zip(sidx, sres):
-            tr = parse_sactrace(l)
-            cs = cases[i]
-            sacstat['runs'] += 1
-            if tr is None or kresults_agree(parse_kresult(impl[i]), tr[1]) is not None:
-                sacstat['trace_unavailable'] += 1
-                continue
-            ev = tr[0]
-            static_ok = cs['ps'][7] <= cs['ps'][6] and cs['ps'][5] >= 10.0
-            inv0 = all(v == 0.0 for v in cs['st0'])     # zero state satisfies st_inv; hot starts are not classified
-            if static_ok and ev['preGuard'] < 0 and inv0:
-                sacstat['within_guarded_theorems'] += 1
-            if ev['ratioNeg'] >= 0 or ev['adimcOver'] >= 0 or ev['fracpOver'] >= 0:
-                sacstat['with_guard_violation_event'] += 1
+        # Sacramento: how many of these runs satisfy the hypotheses of C10_sacramento / _budget / _cumulative
+        # (zero initial state, which satisfies the store invariant, and PET <= uztwm + lztwm every day)
+        for cs in cases:
+            if cs['model'] == 'Sacramento' and len(cs['rain']) > 0:
+                sacstat['runs'] += 1
+                if all(v == 0.0 for v in cs['st0']) and all(e <= cs['ps'][3] + cs['ps'][5] for e in cs['pet']):
+                    sacstat['within_theorems'] += 1
         return finals
 
     illcond = [0]
-    sacstat = {'runs': 0, 'within_guarded_theorems': 0, 'with_guard_violation_event': 0, 'trace_unavailable': 0}
+    sacstat = {'runs': 0, 'within_theorems': 0}
     nmodel, nreg, nknown = {}, {}, {}
     finals = run_and_judge(cases, 's1')
 
@@ -217,15 +189,15 @@ def main():
                      'probability 0.3; GR4J x4 additionally on both sides of every integer and half-integer; x2 = 0 / x2 <= 0 classes), '
                      'each run under the five forcing regimes (dry, wet, intermittent with long dry spells, single pulse, extreme storm up to '
                      '1500 mm/day) for T in {0,1,2,7,40,400}; initial states = the model\'s own InitialiseStates (INIT command), '
-                     'plus prefix runs (stores observed in mid-run), hot starts from those model-produced states, the corpus witnesses of the known findings and a small malformed stream (short / over-long state vectors, model-vs-code only); every case run through '
+                     'plus prefix runs (stores observed in mid-run), hot starts from those model-produced states, the corpus witnesses of the three fixed Sacramento defects (regressions) and a small malformed stream (short / over-long state vectors, model-vs-code only); every case run through '
                      'sim.Catalog and through the extracted Coq kernel (rtol 1e-9, atol 1e-12*(1+largest parameter/initial store/daily rain); RunoffCoefficient bit-exact) and judged by the '
                      'C10 oracle with tolerance 1e-9*(1+sum rain); non-trivial = T>0 and some rain; distinct = distinct (model, parameters, initial states, series)')
     c.finish(extra_cov={'cases_per_model': nmodel, 'cases_per_regime': nreg, 'parameter_vectors': len(vecs), 'malformed_cases': len(odd), 'malformed_panics_impl': odd_panics, 'known_finding_cases': nknown, 'sacramento_theorem_coverage': sacstat, 'ill_conditioned_cases_accepted': illcond[0], 'exhaustive': False},
              assumptions=['theorems are over exact reals (RArith); float round-off is covered only by the tolerance oracle on the implementation outputs',
                           'OCaml libm stands in for Go libm (exp, pow, tanh) in the correspondence run: rtol 1e-9',
-                          'Sacramento: outside the three guards of C10_sacramento_guarded (lzfpm<=lzfsm, lztwm>=10, pre_guard at every step; the number of generated runs inside them is measured in sacramento_theorem_coverage) the store invariant and water balance are covered by the oracle only; oracle failures whose run contains '
-                          'one of the two recorded guard violations (ratio < -1 or adimc > uztwm+lztwm; fracp > 1 -- detected by SACTRACE, a copy of the current '
-                          'sacramento() regenerated from /repo whose outputs must be bit-identical to sim.Catalog\'s) are reported as KNOWN-FINDING, all others as VIOLATION',
+                          'Sacramento theorems assume the store invariant on the initial state (true for InitialiseStates) and PET <= uztwm+lztwm every day; '
+                          'runs outside that (hot starts are not classified, PET above the tension capacity) are covered by the oracle only: '
+                          'their number is measured in sacramento_theorem_coverage',
                           'sim.Catalog wrapper (generated Run) is exercised, not modelled, in this check (see C04)'])
 
 
